@@ -312,7 +312,7 @@ func (c *Ctx) checkWorkerAccumulations(r *fnRef) {
 					} else {
 						L.Bad("order-free-accumulation", r.label, name, pos, why)
 					}
-				case isGuardedMax(info, fl.Body, as, l):
+				case isGuardedMax(info, fl.Body, as, l) || c.guardedMaxSSA(F, l.Pos()):
 					L.OK("order-free-accumulation", r.label, name, pos, "guarded maximum `if x > m { m = x }`: exact and commutative")
 				default:
 					L.Bad("order-free-accumulation", r.label, name, pos, "a worker updates shared state in a way that depends on the order in which pairs are processed")
@@ -323,6 +323,49 @@ func (c *Ctx) checkWorkerAccumulations(r *fnRef) {
 		return true
 	})
 	L.Floor("order-free-accumulation", 2, "uncompute, max")
+}
+
+// guardedMaxSSA: the store at the given position assigns x to a shared cell m and is reached only
+// when `x > m` (or `m < x`, or the non-strict forms) is known true, whatever statement form
+// (if, else-if, tagless switch, named boolean) expresses the guard.
+func (c *Ctx) guardedMaxSSA(F *ssa.Function, at token.Pos) bool {
+	for _, g := range withAnons(F) {
+		var st *ssa.Store
+		allInstrs(g, func(in ssa.Instruction) {
+			if s, ok := in.(*ssa.Store); ok && s.Pos() == at {
+				st = s
+			}
+		})
+		if st == nil {
+			continue
+		}
+		bf := computeBranchFacts(g)
+		lc := newLinCtx(c, g)
+		same := func(a, b ssa.Value) bool { return a == b || sameOperand(a, b) || lc.canon(a) == lc.canon(b) }
+		isCellLoad := func(v ssa.Value) bool {
+			u, ok := v.(*ssa.UnOp)
+			return ok && u.Op == token.MUL && u.X == st.Addr
+		}
+		ok := false
+		allInstrs(g, func(in ssa.Instruction) {
+			bo, isBO := in.(*ssa.BinOp)
+			if !isBO {
+				return
+			}
+			var guard bool
+			switch bo.Op {
+			case token.GTR, token.GEQ:
+				guard = same(bo.X, st.Val) && isCellLoad(bo.Y)
+			case token.LSS, token.LEQ:
+				guard = same(bo.Y, st.Val) && isCellLoad(bo.X)
+			}
+			if guard && bf.knownAt(st.Block(), bo, true) {
+				ok = true
+			}
+		})
+		return ok
+	}
+	return false
 }
 
 func isAppendTo(info interface{}, rhs ast.Expr, lhs ast.Expr) bool {
